@@ -363,6 +363,9 @@ def check(ctx, run):
     for s in slot_vars(prog):
         if s.startswith(("operator_delete", "free_fptr")) or s == "free_fptr":
             rel |= prog.slots().get(s, set())
+            # (also what the switch functions store there through helpers that take the functions as parameters)
+            from .C10 import slot_targets
+            rel |= {g.mn for g in slot_targets(prog, s)}
     n4 = 0
     for mn in sorted(rel):
         f = prog.functions.get(mn)
